@@ -1311,10 +1311,12 @@ class LiteralValue:
     parents: list
 
     def __init__(self, value):
+        super().__init__()
         self.value = value
 
     def promote(self):
-        return self.parents[0]
+        # (a fresh instance: the class-level parent is shared by every literal)
+        return self.parents[0].clone()
 
     def clone(self):
         return self.__class__(self.value)
